@@ -15,7 +15,11 @@ import (
 // checkC07Renamed: an option is renamed (its group's namespace, its long name or its short name
 // changes) after the parser has been used.  The old spelling is then no option of the parser: unknown,
 // handled by the policy; the new spelling reaches the option.
-func checkC07Renamed(c *Ctx, n int) {
+func checkC07Renamed(c *Ctx, n int) { checkRenamed(c, n, "C07") }
+
+// (also judged for C01, C02, C03 and C09: what a renamed option's field holds, its spellings, what is passed
+// through under IgnoreUnknown, that nothing runs on an unknown option)
+func checkRenamed(c *Ctx, n int, prop string) {
 	r := c.Rng
 	for i := 0; i < n; i++ {
 		root := &StructDesc{Fields: []FieldDesc{
@@ -83,7 +87,7 @@ func checkC07Renamed(c *Ctx, n int) {
 			for _, o := range parseBlocks(cr) {
 				obs = o
 			}
-			c.Class(fmt.Sprintf("c07/renamed: %s %s policy=%s old-spelling=%v in-command=%v", mut.Kind, mut.Attr, policy, useOld, inCmd))
+			c.Class(fmt.Sprintf("%s/renamed: %s %s policy=%s old-spelling=%v in-command=%v", strings.ToLower(prop), mut.Kind, mut.Attr, policy, useOld, inCmd))
 			in := map[string]interface{}{"case": cs.Description, "earlier_call": first, "judged_call": second, "policy": policy}
 			nCalls := 0
 			for _, l := range obs.logs {
@@ -120,7 +124,7 @@ func checkC07Renamed(c *Ctx, n int) {
 			if !ok {
 				in["case_file"] = c.saveCase(cr)
 			}
-			c.Check("a-renamed-option-answers-to-its-current-names-only", ok, "C07:renamed", in, got, want)
+			c.Check("a-renamed-option-answers-to-its-current-names-only", ok, prop+":renamed", in, got, want)
 		})
 	}
 }
